@@ -210,7 +210,7 @@ class Engine:
         if k is None:
             return TOP
         if k.get("fn"):
-            return ("fn", k["fn"])
+            return ("fn", k["fn"], tuple(k.get("gargs") or ()))
         if "promoted" in k:
             return self.eval_promoted(fn, k["promoted"])
         if "int" in k:
@@ -530,6 +530,11 @@ class Engine:
                 adt = f[1].rsplit("::", 2)[0]
                 if adt in self.prog.adts:
                     return [Tag(adt, m.group(1), args)]
+            g = f[2] if len(f) > 2 else ()
+            if f[1] == "core::convert::From::from" and len(g) == 2 and args:
+                return self.convert(g[1], g[0], args[0])
+            if f[1] == "core::convert::Into::into" and len(g) == 2 and args:
+                return self.convert(g[0], g[1], args[0])
             return [TOP]
         if f[0] == "closure":
             cf = self.prog.fns.get(f[1])
@@ -588,12 +593,10 @@ class Engine:
             callee = self.prog.fns.get(mir.callee_of(t))
             if callee is not None:
                 return None
-            res = t.get("rpath") or ""
-            if "for T>::from" in res or "for T>::into" in res or res.endswith("<T as std::convert::From<T>>::from"):
-                return [args[0]]
-            if "Into<U>>::into" in res or "<T as std::convert::Into<U>>::into" in res:
-                # blanket Into -> From: resolved impl unknown here
-                return [TOP]
+            g = (t["f"].get("k") or {}).get("gargs") or []
+            if len(g) == 2:
+                src, dst = (g[0], g[1]) if name == "into" else (g[1], g[0])
+                return self.convert(src, dst, args[0])
             return [TOP]
         if cp == "std::ops::Try::branch":
             v = a0
@@ -639,25 +642,42 @@ class Engine:
             return [Tag("core::cmp::Ordering", n, []) for n in ("Less", "Equal", "Greater")]
         return None
 
+    def find_from_impl(self, src, dst):
+        """Workspace fn implementing `impl From<src> for dst` (types compared by last segment)."""
+        key = ("from", src, dst)
+        if key in self.adt_cache:
+            return self.adt_cache[key]
+        found = None
+        for imp in self.prog.impls.values():
+            tr = imp.get("trait_ref") or ""
+            m = re.search(r"std::convert::From<(.+)>>$", tr)
+            if not m:
+                continue
+            if _type_tail(m.group(1)) == _type_tail(src) and _type_tail(imp["self_ty"]) == _type_tail(dst):
+                for it in imp["items"]:
+                    if it["name"] == "from" and it["id"] in self.prog.fns:
+                        found = self.prog.fns[it["id"]]
+        self.adt_cache[key] = found
+        return found
+
+    def convert(self, src, dst, value):
+        if _strip_ty(src) == _strip_ty(dst):
+            return [value]
+        f = self.find_from_impl(src, dst)
+        if f is not None:
+            return self.summary(f, (value,))
+        return [TOP]
+
     def convert_error(self, t, inner):
-        """`?` converts the error with From::from; the resolved from_residual instance does not
-        tell which impl, so look for a workspace From impl by the printed types."""
-        rp = t.get("rpath") or ""
-        m = re.search(r"FromResidual<std::result::Result<std::convert::Infallible, (.+)>>>::from_residual", rp)
-        st = t.get("self_ty") or ""
-        # self_ty = Result<T, F>
-        m2 = re.match(r"std::result::Result<.*, ([^<>]+(?:<.*>)?)>$", st)
-        if m and m2:
-            src, dst = m.group(1), m2.group(1)
-            if src == dst:
-                return [inner]
-            for imp in self.prog.impls.values():
-                tr = imp.get("trait_ref") or ""
-                if tr.endswith("std::convert::From<%s>>" % src) and _type_tail(imp["self_ty"]) == _type_tail(dst):
-                    for it in imp["items"]:
-                        if it["name"] == "from" and it["id"] in self.prog.fns:
-                            return self.summary(self.prog.fns[it["id"]], (inner,))
-        return [TOP] if not (inner[0] == "tag") else [TOP]
+        """`?` converts the error with From::from: source and target error types are the last
+        generic argument of the two Result types the call is instantiated with."""
+        g = (t["f"].get("k") or {}).get("gargs") or []
+        if len(g) == 2:
+            dst = _last_generic(g[0])
+            src = _last_generic(g[1])
+            if src and dst:
+                return self.convert(src, dst, inner)
+        return [TOP]
 
     def result_model(self, name, args):
         r = deref(args[0])
@@ -796,3 +816,25 @@ def _is_derive(fn):
             if any("derive" in m for m in s.get("mx", [])):
                 return True
     return False
+
+
+def _strip_ty(s):
+    return re.sub(r"^(&'?\w* ?(mut )?)+", "", s.strip())
+
+
+def _last_generic(s):
+    """Last top-level generic argument of `Path<A, B>`."""
+    i = s.find("<")
+    if i < 0 or not s.endswith(">"):
+        return None
+    inner = s[i + 1:-1]
+    depth = 0
+    last = 0
+    for j, ch in enumerate(inner):
+        if ch in "<([":
+            depth += 1
+        elif ch in ">)]":
+            depth -= 1
+        elif ch == "," and depth == 0:
+            last = j + 1
+    return inner[last:].strip()
